@@ -2,7 +2,8 @@
 // Case: mode ext items...   item = encoded call (rec.h) | 30 lit (get) | 31 atom (getName)
 // Observation: the calls received on out_, `20 maxAtom` after every input call, `30 x` / `31 len bytes|-1` for
 // probes, `21 class` when an exception ends the case; in mode 1 finally `22 len bytes` = the text SmodelsOutput wrote
-// (not produced by the model: compared after stripping, see props/C02.py obs_equal).
+// (bytes as integers; not produced by the model: compared after stripping, see props/C02.py obs_equal; the oracle reads it back with
+// its own smodels reader and judges the WRITTEN program semantically against the input, props/C02.py written_check).
 #include "rec.h"
 #include <potassco/convert.h>
 #include <potassco/smodels.h>
